@@ -27,7 +27,7 @@ let num () = int_of_string (next ())
 let strn () = bytes_of_hex (next ())
 
 let parse_fmt = function
-  | "uri" -> FUri | "uripost" -> FUripost | "jsonline" -> FJsonline | "raw" -> FRaw
+  | "uri" -> FUri | "uripost" -> FUripost | "jsonline" | "jsonarr" -> FJsonline | "raw" -> FRaw
   | s -> failwith ("fmt " ^ s)
 
 let parse_kvs n = List.init n (fun _ -> let k = strn () in let v = strn () in (k, v))
@@ -95,11 +95,13 @@ let predict (c : string) (obs : string) : string * string * bool =
       let pools = num () in
       let _late = next () in
       let _pause = next () in
+      let passes = (let p = num () in if p < 1 then 1 else p) in
       let cfg = parse_kvs (num ()) in
       let items = List.init (num ()) (fun _ -> parse_item ()) in
       let gk k = { g_ssl = ssl; g_target_host = bytes_of_string (if tgt = "name" then "localhost" else "127.0.0.1");
                    g_resolved = bytes_of_string ("T" ^ string_of_int k) } in
-      let ks = List.init pools (fun k -> k) in
+      (* every pool delivers the file [passes] times *)
+      let ks = List.concat (List.init passes (fun _ -> List.init pools (fun k -> k))) in
       let string_of_bytes (l : n list) = String.concat "" (List.map (fun c -> String.make 1 (Char.chr (int_of_n c))) l) in
       let of_wire (w : wire) : rc =
         { srv = string_of_bytes w.w_addr; tls = field_of_bool w.w_tls; meth = hx w.w_method;
@@ -142,8 +144,13 @@ let predict (c : string) (obs : string) : string * string * bool =
       let nontrivial = cfg <> [] && (both <> [] || List.length items > 1) in
       (pred, verdict, nontrivial)
   | "tr" ->
-      (* specification of NewTransport: every field of the TransportConfig lands in the same-named field of the transport *)
-      (c, verdict (obs = c) "transport-field-mismatch", true)
+      (* specification of NewTransport / NewDialer: every field of the config lands in the same-named field of the built object;
+         the field list comes from the implementation's own structs (reflection), at least the 8 + 4 fields known today *)
+      let ts = split_blank obs in
+      let parts = List.map (fun t -> String.split_on_char ':' t) ts in
+      let ok = List.length ts >= 13 && List.for_all (function [_; c; b] -> c = b | _ -> false) parts in
+      let pred = String.concat " " (List.map (function [n; c; _] -> n ^ ":" ^ c ^ ":" ^ c | l -> String.concat ":" l) parts) in
+      (pred, verdict ok "transport-field-mismatch", true)
   | _ -> ("unknown-case", "BAD:unknown-case", false)
 
 let () = run_cases predict
